@@ -4,7 +4,8 @@
    crates/cli/src/process.rs and crates/core/search.rs on every run.  The consumer (the searcher reading
    from a reader) is a Section-style parameter: any state machine (wants, step, finish) asking for >= 1 byte. *)
 From RG Require Import Base.Bytes Model.CliTypes Model.CliExpected Gen.DecisionsCli Model.Process Model.MainRun
-  Spec.ExitSpec Proofs.DecisionsProofs Proofs.ProcessProofs Proofs.MainRunProofs.
+  Spec.ExitSpec Proofs.DecisionsProofs Proofs.ProcessProofs Proofs.MainRunProofs
+  Model.PreZipFlags Model.PreZipGen Spec.PreZipSpec Proofs.PreZipProofs.
 Local Open Scope bool_scope.
 
 (* 1. CommandReader::close reports an error exactly when this is the first close, the child did not succeed, and
@@ -155,6 +156,45 @@ Theorem decompress_start_failure_is_error_refuted :
 Proof. exact search_decompress_fallback. Qed.
 Print Assumptions decompress_start_failure_is_error_refuted.
 
+(* 9. which of --pre / -z is in effect after ANY sequence of --pre CMD / --pre '' / --no-pre / -z / --no-search-zip
+      (the update rules of defs.rs applied in command-line order): the documented override law — the last flag that
+      speaks about a setting decides it (Spec/PreZipSpec.v, written from the flag documentation) *)
+Theorem flag_override_law : forall l : list pz_event,
+  final_state l = {| pz_pre := spec_pre l; pz_zip := spec_zip l |}.
+Proof. exact final_state_spec. Qed.
+Print Assumptions flag_override_law.
+
+(* the same law for the update rules REGENERATED from defs.rs on every run (pre_update_value, pre_update_switch,
+   zip_update of Gen/DecisionsCli.v): a change of <Pre as Flag>::update / <SearchZip as Flag>::update that breaks the
+   documented law breaks this proof *)
+Theorem flag_override_law_generated : forall l : list pz_event,
+  gen_final_state l = {| pz_pre := spec_pre l; pz_zip := spec_zip l |}.
+Proof. exact gen_final_state_spec. Qed.
+Print Assumptions flag_override_law_generated.
+
+Theorem pre_and_zip_exclusive : forall l p,
+  pz_pre (final_state l) = Some p -> pz_zip (final_state l) = false.
+Proof. exact pre_zip_exclusive_proof. Qed.
+Print Assumptions pre_and_zip_exclusive.
+
+Theorem pre_in_effect_never_empty : forall l, pz_pre (final_state l) <> Some [].
+Proof. exact pre_never_empty_proof. Qed.
+Print Assumptions pre_in_effect_never_empty.
+
+(* an empty --pre value and --no-pre are the same flag, and neither touches the decompression setting *)
+Theorem cancelling_pre_keeps_zip : forall l,
+  pz_zip (final_state (l ++ [EPre []])) = pz_zip (final_state l) /\
+  pz_zip (final_state (l ++ [ENoPre])) = pz_zip (final_state l) /\
+  final_state (l ++ [EPre []]) = final_state (l ++ [ENoPre]).
+Proof. exact cancel_pre_keeps_zip_proof. Qed.
+Print Assumptions cancelling_pre_keeps_zip.
+
+(* the looser reading "-z is in effect iff the last of -z/--no-search-zip is -z and no preprocessor is in effect" is
+   NOT what the update rules do: `-z --pre x --no-pre` leaves neither in effect (an override is not undone) *)
+Theorem zip_iff_last_switch_and_no_pre_refuted : exists l, pz_zip (final_state l) <> loose_zip l.
+Proof. exact loose_zip_refuted_proof. Qed.
+Print Assumptions zip_iff_last_switch_and_no_pre_refuted.
+
 (* ---- non-vacuity ---- *)
 (* a consumer that reads everything, 3 bytes at a time; result = number of bytes seen *)
 Definition all_wants (_ : nat) : nat := 3.
@@ -178,6 +218,13 @@ Example ex_early_stop_silent_child_killed :
   = (Some (inr 4), [1;2;3;4]%N).
 Proof. vm_compute. reflexivity. Qed.
 
+Example ex_flags_zip_then_empty_pre :
+  final_state [EPre [120%N]; EZip; EPre []] = {| pz_pre := None; pz_zip := true |}.
+Proof. vm_compute. reflexivity. Qed.
+Example ex_flags_pre_after_zip :
+  final_state [EZip; EPre [120%N]] = {| pz_pre := Some [120%N]; pz_zip := false |}.
+Proof. vm_compute. reflexivity. Qed.
+
 Check close_table : forall stdout_open wait_success eof stderr_is_empty : bool,
   close_is_error stdout_open wait_success eof stderr_is_empty = true <->
   stdout_open = true /\ wait_success = false /\ (eof = true \/ stderr_is_empty = false).
@@ -187,3 +234,11 @@ Check early_stop_not_error :
   search_bytes S R wants step finish s0 (ch_out c) = (CDone R r false, fed) ->
   search_preprocessor S R wants step finish s0 true c = (Some (inr r), fed) /\
   (forall raw, search_decompress S R wants step finish s0 true raw c = (Some (inr r), fed)).
+Check flag_override_law : forall l : list pz_event,
+  final_state l = {| pz_pre := spec_pre l; pz_zip := spec_zip l |}.
+Check cancelling_pre_keeps_zip : forall l,
+  pz_zip (final_state (l ++ [EPre []])) = pz_zip (final_state l) /\
+  pz_zip (final_state (l ++ [ENoPre])) = pz_zip (final_state l) /\
+  final_state (l ++ [EPre []]) = final_state (l ++ [ENoPre]).
+Check flag_override_law_generated : forall l : list pz_event,
+  gen_final_state l = {| pz_pre := spec_pre l; pz_zip := spec_zip l |}.
